@@ -94,7 +94,8 @@ pub fn check_case(tape: &[u16], rc: &mut RCase) -> Result<(), Failure> {
     };
     // two blocks whose names differ in case only share one name in the IR: either the front end refuses the
     // program, or the two blocks are served like any other pair
-    let colliding = (0..sc.ins.len()).any(|a| (0..a).any(|b| sc.ins[a].name.to_lowercase() == sc.ins[b].name.to_lowercase()));
+    let colliding = (0..sc.ins.len()).any(|a| (0..a).any(|b| sc.ins[a].name.to_lowercase() == sc.ins[b].name.to_lowercase()))
+        || (sc.collateral.is_some() && sc.ins.iter().any(|i| i.name.to_lowercase() == "collateral"));
     let tir = match pipeline::front(&src, &sc.tx_name) {
         Ok(t) => t,
         Err(e) if colliding && e.stage() == "analyze" && e.describe().contains("DuplicateDefinition") => {
